@@ -532,6 +532,7 @@ def check_coercion(ctx, rep, rule: str, modules):
                 node = par
             key = ast.unparse(a)
             guarded = False
+            int_typed = False  # the guard itself says the value is an integer type: int() cannot truncate
             for t in tests:
                 for m in ast.walk(t):
                     if isinstance(m, ast.Call) and isinstance(m.func, ast.Name) and m.func.id == "isinstance" and len(m.args) == 2 and ast.unparse(m.args[0]) == key:
@@ -539,11 +540,13 @@ def check_coercion(ctx, rep, rule: str, modules):
                         names = {ast.unparse(x).split(".")[-1] for x in ts}
                         if names and names <= NUM:
                             guarded = True
+                            if names <= {"int", "Integral", "bool"}:
+                                int_typed = True
             cons = construct_of(f, f"coercion:{ast.unparse(c)[:40]}")
             loc = f"{f.path}:{c.lineno}"
             # int() of a float must additionally sit behind an integrality test (2.5 is not 2)
             if guarded and c.func.id == "int" and isinstance(fl.parent.get(id(c)), (ast.Return, ast.Assign)):
-                integral = False
+                integral = int_typed
                 for t in tests:
                     for m in ast.walk(t):
                         if isinstance(m, ast.Call) and isinstance(m.func, ast.Attribute) and m.func.attr == "is_integer":
